@@ -1495,6 +1495,7 @@ fn run_cid_case(c: &CidCase, obs: &mut Obs) -> Result<(), Failure> {
 // ------------------------------------------------------------------------------------------ run
 
 pub fn run(ctx: &mut Ctx) {
+    ctx.enable_crash_sentinel();
     ctx.assume("ground truth: squares from the harness' generator extended by ExtendedDataSquare::from_ods, stored headers from lv_gen::chain (accepted by InMemoryStore::insert, i.e. validated and linked); accepted containers are judged by value against a brute-force index of the stored square (eds.share(r,c), the full row, a scan of the namespace in the row), identifiers and multihashes are parsed/encoded by hand");
     ctx.assume("honest containers are produced by Sample::new / Row shares / ExtendedDataSquare::get_namespace_data of celestia-types; honest => accepted is asserted for those (for row-namespace-data only when the row's root range covers the namespace)");
     ctx.assume("a panic inside ShwapMultihasher::hash, get_block_container or convert_cid is a violation (C10: 'otherwise it reports an error'); panics originating in nmt-rs are tracked as open known findings owned by C16");
